@@ -87,6 +87,13 @@ func (p *Path) vpIntrinsic(caller *frame, fn *ssa.Function, name string, args []
 		return smt.Ite(boolArg(args[0]), args[1].(*smt.Term), args[2].(*smt.Term))
 	case "vp_Native":
 		return smt.False
+	case "vp_Param":
+		nm := p.strArg(args[0], "param name")
+		v, ok := p.params[nm]
+		if !ok {
+			p.abortf("vp_Param(%q): no value configured for this tier", nm)
+		}
+		return intConst(v)
 	case "vp_Calls":
 		want := p.strArg(args[0], "function name")
 		n := 0
